@@ -35,7 +35,8 @@ LEVEL_TEXT = ("Random histories of 3-15 calls (every placer, allocate, route, "
               "executed as the first call of a fresh interpreter image; deep "
               "snapshots of all arguments are compared around every call.")
 LEVEL_NOTE = ("Trusted: the structural snapshot/result encoders. Both sides "
-              "run with PYTHONHASHSEED=0, the same seeded random.Random, the "
+              "run with the same PYTHONHASHSEED (it follows the check's seed), the "
+              "same seeded random.Random, the "
               "global random module seeded immediately before the probe, and "
               "int/str vertices created in the same order.")
 RULE = ("one case = a history of 3-15 calls followed by a probe; "
@@ -584,7 +585,8 @@ _zygote = []
 
 def fresh_result(desc, seed):
     if not _zygote:
-        env = dict(os.environ, PYTHONHASHSEED="0", PYTHONWARNINGS="ignore",
+        env = dict(os.environ, PYTHONWARNINGS="ignore",
+                   PYTHONHASHSEED=os.environ.get("PYTHONHASHSEED", "0"),
                    PYTHONPATH=VERIF + os.pathsep + os.environ.get(
                        "PYTHONPATH", ""))
         _zygote.append(subprocess.Popen(
